@@ -446,6 +446,20 @@ class Specs(object):
                 if curloop is None:
                     raise SpecError('%s: writes outside loop' % src)
                 curloop.writes = (curloop.writes or []) + ([] if rest == 'nothing' else split_top(rest))
+            elif kw == 'use' and rest.startswith('@'):
+                ma = re.match(r'@"([^"]*)"\s*(.*)$', rest)
+                if not ma:
+                    raise SpecError('%s: use @"source text" lemma(args)' % src)
+                cl = Clause('use', ma.group(2), props, src)
+                cl.anchor = ma.group(1)
+                cur.anchored = getattr(cur, 'anchored', [])
+                cur.anchored.append(cl)
+            elif kw == 'assert' and rest.startswith('@'):
+                ma = re.match(r'@"([^"]*)"\s*(.*)$', rest)
+                cl = Clause('assert', ma.group(2), props, src)
+                cl.anchor = ma.group(1)
+                cur.anchored = getattr(cur, 'anchored', [])
+                cur.anchored.append(cl)
             elif kw == 'use':
                 if isinstance(cur, Lemma):
                     cur.uses.append(Clause('use', rest, props, src))
